@@ -21,10 +21,7 @@ cvars == <<tvars, panic, wkq, submitted, budget, armedFail, drift>>
 VARIABLES ncomp, pf   \* ncomp: steps compared; pf: proactive-filling configuration of the current run (from its Reset line)
 
 \* ---- what the model covers
-SnOnly ==
-  /\ \A w \in DOMAIN srv : srv[w].kind = "sn" /\ ~srv[w].stopping
-  /\ \A t \in DOMAIN task : task[t].st # "M"
-  /\ \A i \in DOMAIN classes : \A v \in DOMAIN classes[i] : classes[i][v].n_nodes = 0
+SnOnly == \A w \in DOMAIN srv : ~srv[w].stopping     \* (multi-node tasks are covered; a stopping worker is not)
 NoTime == \A w \in DOMAIN wk : wk[w].remaining < 0 /\ ~wk[w].stopped
 CpuOnly == \A i \in DOMAIN classes : \A v \in DOMAIN classes[i] : \A k \in DOMAIN classes[i][v].entries : classes[i][v].entries[k].r = 0
 
@@ -97,15 +94,18 @@ ConfSchedule(e, reserve, pfmax) ==
                   \/ task[t].st = "R" /\ t \notin DOMAIN redirect /\ t \in DOMAIN red}
       m == [t \in taken |-> IF post[t].st = "A" THEN <<post[t].w, post[t].v>> ELSE <<red[t].w, red[t].v>>]
       nOf(rq) == Cardinality({t \in taken : task[t].rq = rq})
-  IN IF \E t \in DOMAIN post : post[t].st = "M" THEN TRUE
+      newM == {t \in DOMAIN task \cap DOMAIN post : task[t].st = "W" /\ post[t].st = "M"}
+      mn == [rq \in MnClasses |-> IF \E t \in newM : task[t].rq = rq THEN post[CHOOSE t \in newM : task[t].rq = rq].ws ELSE <<>>]
+  IN IF \E rq \in DOMAIN queue : Cardinality({t \in newM : task[t].rq = rq}) > 1 THEN TRUE   \* the model places one per class and round
      ELSE /\ \A t \in taken : Placeable(t)
+          /\ \A t \in newM : task[t].rq \in MnClasses /\ t = MnTop(task[t].rq)
           /\ Fits(m)
           /\ \E ch \in ChoicesPerClass(DOMAIN queue) :
                /\ \A rq \in DOMAIN queue : ch[rq][2] = nOf(rq) /\ {ch[rq][1][i] : i \in 1..ch[rq][2]} = {t \in taken : task[t].rq = rq}
                /\ LET takenSeq == FoldSeqLeft(LAMBDA acc, rq : acc \o SubSeq(ch[rq][1], 1, ch[rq][2]), <<>>, SortedIds(DOMAIN queue))
                       q2 == [rq \in DOMAIN queue |-> QueueAfterTake(queue[rq], ch[rq][1], ch[rq][2])]
                   IN \E wo \in SetToSeqs(DOMAIN srv) :
-                        LET C1 == ApplyMapping([CoreRec EXCEPT !.queue = q2], takenSeq, m)
+                        LET C1 == ApplyMn(ApplyMapping([CoreRec EXCEPT !.queue = q2], takenSeq, m), mn)
                             C3 == [SendMapping(ProactiveFill(C1, wo, reserve, pfmax)) EXCEPT !.ns = FALSE]
                         IN CoreAgrees(C3, e)
 
